@@ -2,7 +2,10 @@
 
 package liskbft
 
-import "github.com/LiskHQ/lisk-engine/pkg/consensus/contradiction"
+import (
+	"github.com/LiskHQ/lisk-engine/pkg/blockchain"
+	"github.com/LiskHQ/lisk-engine/pkg/consensus/contradiction"
+)
 
 type zz07Hdr struct {
 	h, mhg, mhp uint32
@@ -56,3 +59,53 @@ func zzH_C07_window_contradiction(t *zzT) {
 //zz:quick L=3
 //zz:thorough L=5
 func zzH_C01_window_contradiction(t *zzT) { zzH_C07_window_contradiction(t) }
+
+func zz07Block(t *zzT, p string) *blockchain.BlockHeader {
+	g := t.U8(p + ".gen")
+	t.Assume(g < 2)
+	return &blockchain.BlockHeader{
+		ID:                 []byte{0x1d, t.U8(p + ".id")},
+		Version:            2,
+		Height:             t.U32(p + ".h"),
+		MaxHeightGenerated: t.U32(p + ".mhg"),
+		MaxHeightPrevoted:  t.U32(p + ".mhp"),
+		GeneratorAddress:   []byte{0xa0, g},
+	}
+}
+
+// C07.a at the public entry point: API.AreHeadersContradicting on two real sealed headers (all three
+// 32-bit fields symbolic, two generators, identical or distinct IDs) is symmetric, false for one and the
+// same header and for different generators, and otherwise true exactly when neither header is a
+// legitimate successor of the other (seed C07-5 put a "same height => double forging" shortcut here,
+// which the harnesses of the inner function cannot see).
+func zzH_C07_api_contradicting(t *zzT) {
+	a, b := zz07Block(t, "a"), zz07Block(t, "b")
+	api := &API{}
+	ab, err1 := api.AreHeadersContradicting(a.Readonly(), b.Readonly())
+	ba, err2 := api.AreHeadersContradicting(b.Readonly(), a.Readonly())
+	t.Assert(err1 == nil && err2 == nil, "no error")
+	t.Assert(ab == ba, "symmetric at the API")
+	sameID := a.ID[1] == b.ID[1]
+	sameGen := a.GeneratorAddress[1] == b.GeneratorAddress[1]
+	succ := func(x, y *blockchain.BlockHeader) bool {
+		return y.MaxHeightGenerated >= x.Height && y.MaxHeightGenerated >= x.MaxHeightGenerated &&
+			y.MaxHeightPrevoted >= x.MaxHeightPrevoted && (y.Height > x.Height || y.MaxHeightPrevoted > x.MaxHeightPrevoted)
+	}
+	want := !sameID && sameGen && !succ(a, b) && !succ(b, a)
+	t.ObserveBool("ab", ab)
+	t.Assert(ab == want, "API: contradicting iff distinct IDs, same generator and neither is a legitimate successor")
+	t.Reach("end")
+}
+
+// C07.d at the public entry point: API.HeaderHasPriority (used by the generator endpoint to decide whether the
+// node's tip is ahead of a remote generator's status) is the strict LIP-0014 order on (maxHeightPrevoted, height).
+func zzH_C07_api_header_priority(t *zzT) {
+	tip := zz07Block(t, "tip")
+	h, mhp, mhg := t.U32("h"), t.U32("mhp"), t.U32("mhg")
+	got, err := (&API{}).HeaderHasPriority(nil, tip.Readonly(), h, mhp, mhg)
+	t.Assert(err == nil, "no error")
+	want := mhp < tip.MaxHeightPrevoted || (mhp == tip.MaxHeightPrevoted && h < tip.Height)
+	t.ObserveBool("got", got)
+	t.Assert(got == want, "tip has priority iff (maxHeightPrevoted, height) of the tip is strictly larger")
+	t.Reach("end")
+}
